@@ -338,6 +338,7 @@ Section Frame.
     | IShare i _ _ => Some i
     | IBase (OFill i _ _) => Some i
     | IBase (OIAdd i _) => Some i
+    | IBase (OFillNp i _) => Some i
     | _ => None
     end.
 
@@ -365,7 +366,10 @@ Section Frame.
       + reflexivity.
       + reflexivity.
       + reflexivity.
-      + reflexivity.
+      + unfold geti. destruct (nth i (pl w) (Run.dummy, dummy_it)) as [a t].
+        destruct (xcheck t); [reflexivity|].
+        destruct (Np.fillnp a rows). destruct (extend t a0 (nxt w)). simpl.
+        apply nth_seti. congruence.
       + reflexivity.
       + unfold push. destruct (fresh_like _ (nxt w)). simpl. apply nth_app_old. exact Hj.
       + reflexivity.
